@@ -427,7 +427,7 @@ class Fn:
             if k == 'field':
                 if e == ('self_closure',):
                     e = ('upvar', p['n'])
-                elif e[0] == 'agg' and e[1] in ('tuple',) and p['i'] < len(e[3]):
+                elif e[0] == 'agg' and e[1] in ('tuple', 'closure') and p['i'] < len(e[3]):
                     e = e[3][p['i']]
                 else:
                     e = ('field', e, p['n'], clean_ty(p.get('bty', '')))
